@@ -108,19 +108,7 @@ spec fn cut_len(rows: Seq<Seq<(BlockHash, u32)>>, chain: Seq<CachedBlock>, c: in
 }
 
 // the upper bound check (get_utxos.rs:209)
-//@slice file=canister/src/api/get_utxos.rs item="fn get_utxos_from_chain" from_after="let address = Address::from_str_checked" to_before="let mut address_utxos = state.get_utxos(address);" props=C04,C05
-//@ rewrite R3 "GetUtxosError::" => "GetUtxosErrorFull::"
-//@ head
-//@| // R8 slice: the statements between the address parsing and `state.get_utxos(address)`
-//@| fn get_utxos_bound_check(state: &State, chain: &BlockChain<CachedBlock>, min_confirmations: u32) -> (r: Result<(), GetUtxosErrorFull>)
-//@|     requires chain@.len() < 0x1_0000_0000, state_ranges(state),
-//@|     ensures
-//@|         // a c larger than the number of unstable best-chain blocks is refused with an explicit error, nothing else is
-//@|         r.is_err() <==> chain@.len() < min_confirmations,
-//@|         r matches Err(e) ==> e == (GetUtxosErrorFull::MinConfirmationsTooLarge { given: min_confirmations, max: chain@.len() as u32 }),
-//@ tail
-//@| Ok(())
-//@end
+
 
 proof fn lemma_cut_stuck(rows: Seq<Seq<(BlockHash, u32)>>, chain: Seq<CachedBlock>, c: int, i: int, n: int)
     requires 0 <= i < n <= chain.len(), cut_len(rows, chain, c, i) == i, c > 0, count_at(rows, chain, i) < c,
@@ -131,56 +119,7 @@ proof fn lemma_cut_stuck(rows: Seq<Seq<(BlockHash, u32)>>, chain: Seq<CachedBloc
 }
 
 // the prefix walk (get_utxos.rs:218-236)
-//@slice file=canister/src/api/get_utxos.rs item="fn get_utxos_from_chain" from_after="let mut address_utxos = state.get_utxos(address);" to_before="stats.ins_apply_unstable_blocks = performance_counter() - ins_start;" props=C04,C02
-//@ rewrite R4 "for \(i, block\) in chain\.into_chain\(\)\.iter\(\)\.enumerate\(\) \{" => "let vp_chain = chain.into_chain(); let mut vp_n: usize = 0; for block in it: vp_chain.iter() { let i = vp_n; vp_n = vp_n + 1; proof { lemma_walk_step(state, blocks_with_depths_by_heights@, vp_rows, vp_chain@, vp_chain_view, i as int); }"
-//@ head
-//@| fn get_utxos_walk<'a>(state: &'a State, chain: BlockChain<'a, CachedBlock>, min_confirmations: u32, address_utxos: &mut AddressUtxoSetLog) -> (r: (&'a BlockHash, u32))
-//@|     requires
-//@|         state_ranges(state),
-//@|         1 <= chain@.len() <= state.unstable_blocks.tree.sdepth(),
-//@|         // established by the bound check that precedes the walk
-//@|         min_confirmations <= chain@.len(),
-//@|         chain@.len() < 0x8000_0000,   // [assumption, stated] fewer than 2^31 unstable blocks (the repo compares through `as i32`)
-//@|         old(address_utxos).applied@.len() == 0,
-//@|         rows_small(rows_spec(&state.unstable_blocks.tree)),
-//@|     ensures
-//@|         walk_result(state, chain@, min_confirmations as int, final(address_utxos).applied@, *r.0, r.1),
-//@ before "let ins_start = performance_counter();"
-//@| let ghost vp_chain_view = chain@;
-//@| let ghost vp_rows = rows_spec(&state.unstable_blocks.tree);
-//@| let ghost vp_c = min_confirmations as int;
-//@ loop 1
-//@| invariant_except_break
-//@|     vp_n == it.index@,
-//@|     cut_len(vp_rows, vp_chain_view, vp_c, it.index@) == it.index@,
-//@|     address_utxos.applied@ =~= chain_hashes(vp_chain_view).subrange(0, it.index@),
-//@|     *tip_block_hash == (if it.index@ == 0 { vp_chain_view[0].block_hash } else { vp_chain_view[it.index@ - 1].block_hash }),
-//@|     tip_block_height == (if it.index@ == 0 { state.utxos.next_height as int } else { state.utxos.next_height + it.index@ - 1 }),
-//@| invariant
-//@|     state_ranges(state),
-//@|     it.index@ <= vp_chain@.len(),
-//@|     deref_seq(vp_chain@) =~= vp_chain_view,
-//@|     vp_rows == rows_spec(&state.unstable_blocks.tree),
-//@|     vp_c == min_confirmations as int,
-//@|     vp_c <= vp_chain_view.len(),
-//@|     vp_chain_view.len() < 0x8000_0000,
-//@|     1 <= vp_chain_view.len() <= state.unstable_blocks.tree.sdepth(),
-//@|     blocks_with_depths_by_heights@.len() == state.unstable_blocks.tree.sdepth(),
-//@|     vp_rows.len() == blocks_with_depths_by_heights@.len(),
-//@|     forall|i: int| 0 <= i < blocks_with_depths_by_heights@.len() ==> row_view((#[trigger] blocks_with_depths_by_heights@[i])@) =~= vp_rows[i],
-//@|     rows_small(vp_rows),
-//@| ensures
-//@|     walk_result(state, vp_chain_view, vp_c, address_utxos.applied@, *tip_block_hash, tip_block_height),
-//@ before "tip_block_hash = block.block_hash();"
-//@| proof {
-//@|     assert(row_view(blocks_with_depths_by_heights@[i as int]@) =~= vp_rows[i as int]);
-//@|     assert(vp_c <= 0 || count_at(vp_rows, vp_chain_view, i as int) >= vp_c);
-//@| }
-//@ before "break;"
-//@| proof { lemma_cut_stuck(vp_rows, vp_chain_view, vp_c, i as int, vp_chain_view.len() as int); }
-//@ tail
-//@| (tip_block_hash, tip_block_height)
-//@end
+
 
 // what each iteration of either walk needs about row i and block i (kept out of the loop bodies so that the proof
 // does not depend on how the body is written)
@@ -321,102 +260,7 @@ spec fn balances_in_range(ub: &UnstableBlocks, a: Address, chain: Seq<CachedBloc
             ==> 0 <= #[trigger] bal_mid_rem(ub, a, chain, b0, k, jr) <= u64::MAX
 }
 
-//@slice file=canister/src/api/get_balance.rs item="fn get_balance_private" from_after="let ins_start = performance_counter();" to_before="let stats = Stats {" props=C05
-//@ rewrite R4 "for \(i, block\) in main_chain\.into_chain\(\)\.iter\(\)\.enumerate\(\) \{" => "let vp_chain = main_chain.into_chain(); let mut vp_n: usize = 0; for block in it: vp_chain.iter() { let i = vp_n; vp_n = vp_n + 1; proof { lemma_walk_step(state, blocks_with_depths_by_heights@, vp_rows, vp_chain@, vp_chain_view, i as int); }"
-//@ rewrite R4 "for outpoint in state\s*\.unstable_blocks\s*\.get_added_outpoints\(block\.block_hash\(\), &address\)\s*\{" => "for outpoint in ita: state.unstable_blocks.get_added_outpoints(block.block_hash(), &address) {"
-//@ rewrite R4 "for outpoint in state\s*\.unstable_blocks\s*\.get_removed_outpoints\(block\.block_hash\(\), &address\)\s*\{" => "for outpoint in itr: state.unstable_blocks.get_removed_outpoints(block.block_hash(), &address) {"
-//@ head
-//@| fn get_balance_walk(state: &State, main_chain: BlockChain<CachedBlock>, min_confirmations: u32, address: Address, balance0: u64) -> (r: u64)
-//@|     requires
-//@|         state_ranges(state),
-//@|         1 <= main_chain@.len() <= state.unstable_blocks.tree.sdepth(),
-//@|         min_confirmations <= main_chain@.len(),
-//@|         main_chain@.len() < 0x8000_0000,
-//@|         rows_small(rows_spec(&state.unstable_blocks.tree)),
-//@|         balances_in_range(&state.unstable_blocks, address, main_chain@, balance0 as int),
-//@|         cache_lists_have_tx_outs(&state.unstable_blocks),
-//@|     ensures
-//@|         // the balance is the stable balance plus the per-block deltas of exactly the blocks get_utxos applies for the
-//@|         // same request: the first cut_len blocks of the served chain
-//@|         r == balance_after(&state.unstable_blocks, address, main_chain@, balance0 as int,
-//@|                            cut_len(rows_spec(&state.unstable_blocks.tree), main_chain@, min_confirmations as int, main_chain@.len() as int)),
-//@ before "let blocks_with_depths_by_heights ="
-//@| let mut balance = balance0;
-//@| let ghost vp_chain_view = main_chain@;
-//@| let ghost vp_rows = rows_spec(&state.unstable_blocks.tree);
-//@| let ghost vp_c = min_confirmations as int;
-//@| let ghost vp_ub = &state.unstable_blocks;
-//@| let ghost vp_b0 = balance0 as int;
-//@ loop 1
-//@| invariant_except_break
-//@|     vp_n == it.index@,
-//@|     cut_len(vp_rows, vp_chain_view, vp_c, it.index@) == it.index@,
-//@|     balance == balance_after(vp_ub, address, vp_chain_view, vp_b0, it.index@),
-//@| invariant
-//@|     state_ranges(state),
-//@|     it.index@ <= vp_chain@.len(),
-//@|     deref_seq(vp_chain@) =~= vp_chain_view,
-//@|     vp_rows == rows_spec(&state.unstable_blocks.tree),
-//@|     vp_ub == &state.unstable_blocks,
-//@|     vp_c == min_confirmations as int,
-//@|     vp_c <= vp_chain_view.len(),
-//@|     vp_chain_view.len() < 0x8000_0000,
-//@|     1 <= vp_chain_view.len() <= state.unstable_blocks.tree.sdepth(),
-//@|     blocks_with_depths_by_heights@.len() == state.unstable_blocks.tree.sdepth(),
-//@|     vp_rows.len() == blocks_with_depths_by_heights@.len(),
-//@|     forall|i: int| 0 <= i < blocks_with_depths_by_heights@.len() ==> row_view((#[trigger] blocks_with_depths_by_heights@[i])@) =~= vp_rows[i],
-//@|     rows_small(vp_rows),
-//@|     balances_in_range(vp_ub, address, vp_chain_view, vp_b0),
-//@|     cache_lists_have_tx_outs(vp_ub),
-//@| ensures
-//@|     balance == balance_after(vp_ub, address, vp_chain_view, vp_b0, cut_len(vp_rows, vp_chain_view, vp_c, vp_chain_view.len() as int)),
-//@ loop 2
-//@| invariant
-//@|     0 <= i < vp_chain_view.len(),
-//@|     block.block_hash == vp_chain_view[i as int].block_hash,
-//@|     balances_in_range(vp_ub, address, vp_chain_view, vp_b0),
-//@|     cache_lists_have_tx_outs(vp_ub),
-//@|     vp_ub == &state.unstable_blocks,
-//@|     balance == bal_mid_add(vp_ub, address, vp_chain_view, vp_b0, i as int, ita.index@),
-//@ loop 3
-//@| invariant
-//@|     0 <= i < vp_chain_view.len(),
-//@|     block.block_hash == vp_chain_view[i as int].block_hash,
-//@|     balances_in_range(vp_ub, address, vp_chain_view, vp_b0),
-//@|     cache_lists_have_tx_outs(vp_ub),
-//@|     vp_ub == &state.unstable_blocks,
-//@|     balance == bal_mid_rem(vp_ub, address, vp_chain_view, vp_b0, i as int, itr.index@),
-//@ before "break;"
-//@| proof { lemma_cut_stuck(vp_rows, vp_chain_view, vp_c, i as int, vp_chain_view.len() as int); }
-//@ before "let (txout, _) = state.unstable_blocks.get_tx_out(outpoint).unwrap();" nth=1
-//@| proof {
-//@|     let ghost sq0 = added_spec(vp_ub, vp_chain_view[i as int].block_hash, address);
-//@|     assert(*outpoint == sq0[ita.index@]);
-//@|     assert(has_tx_out(vp_ub, sq0[ita.index@]));
-//@| }
-//@ before "let (txout, _) = state.unstable_blocks.get_tx_out(outpoint).unwrap();" nth=2
-//@| proof {
-//@|     let ghost sq0 = removed_spec(vp_ub, vp_chain_view[i as int].block_hash, address);
-//@|     assert(*outpoint == sq0[itr.index@]);
-//@|     assert(has_tx_out(vp_ub, sq0[itr.index@]));
-//@| }
-//@ before "balance += txout.value;"
-//@| proof {
-//@|     let ghost sq = added_spec(vp_ub, vp_chain_view[i as int].block_hash, address);
-//@|     assert(*outpoint == sq[ita.index@]);
-//@|     assert(sum_values(vp_ub, sq, ita.index@ + 1) == sum_values(vp_ub, sq, ita.index@) + value_spec(vp_ub, sq[ita.index@]));
-//@|     assert(0 <= bal_mid_add(vp_ub, address, vp_chain_view, vp_b0, i as int, ita.index@ + 1) <= u64::MAX);
-//@| }
-//@ before "balance -= txout.value;"
-//@| proof {
-//@|     let ghost sq = removed_spec(vp_ub, vp_chain_view[i as int].block_hash, address);
-//@|     assert(*outpoint == sq[itr.index@]);
-//@|     assert(sum_values(vp_ub, sq, itr.index@ + 1) == sum_values(vp_ub, sq, itr.index@) + value_spec(vp_ub, sq[itr.index@]));
-//@|     assert(0 <= bal_mid_rem(vp_ub, address, vp_chain_view, vp_b0, i as int, itr.index@ + 1) <= u64::MAX);
-//@| }
-//@ tail
-//@| balance
-//@end
+
 
 // ---- C06: Page::from_bytes refuses every blob whose length is not 72 before touching it (types.rs:65) ---------------------
 //@extract file=canister/src/types.rs item="const EXPECTED_PAGE_LENGTH" props=C06
@@ -563,36 +407,8 @@ impl Page {
     #[verifier::external_body]
     fn to_bytes(&self) -> (r: Vec<u8>) ensures r@ == page_bytes_spec(self.tip_block_hash, self.height, self.outpoint) { unimplemented!() }
 }
-//@slice file=canister/src/api/get_utxos.rs item="fn get_utxos_from_chain" from="let (utxos_to_take, overflow) = utxo_limit.overflowing_add(1);" to="assert!(!overflow" props=C06
-//@ head
-//@| // R8 slice: how many elements are pulled from the merged stream: one more than a page holds
-//@| fn get_utxos_take_count(utxo_limit: usize) -> (r: usize)
-//@|     requires utxo_limit < usize::MAX,
-//@|     ensures r == utxo_limit + 1,
-//@| {
-//@ tail
-//@|     utxos_to_take
-//@| }
-//@end
-//@slice file=canister/src/api/get_utxos.rs item="fn get_utxos_from_chain" from="let rest = utxos.split_off" to="let next_page = rest.first().map(|next| {" props=C06
-//@ rewrite R9 "\.map\(\|next\| \{" => ".map(|next: &PublicUtxo| -> (vp_b: Vec<u8>) ensures vp_b@ == page_bytes_spec(*tip_block_hash, next.height, outpoint_new_spec(txid_of(next.outpoint.txid), next.outpoint.vout)) {"
-//@ head
-//@| // R8 slice: the page cut. `utxos_in` is what the (unverified) take(limit+1)/map/collect pipeline produced
-//@| fn get_utxos_page_cut(utxos_in: Vec<PublicUtxo>, utxo_limit: usize, tip_block_hash: &BlockHash) -> (r: (Vec<PublicUtxo>, Option<Vec<u8>>))
-//@|     ensures
-//@|         // at most `limit` elements per page: the first min(len, limit) elements, in order
-//@|         r.0@ == utxos_in@.subrange(0, if utxos_in@.len() <= utxo_limit { utxos_in@.len() as int } else { utxo_limit as int }),
-//@|         // a next page is announced iff something was left over, and its token names this response's tip and the FIRST
-//@|         // omitted element (so that the next page resumes exactly there: nothing skipped, nothing repeated)
-//@|         r.1.is_some() <==> utxos_in@.len() > utxo_limit,
-//@|         r.1 matches Some(b) ==> b@ == page_bytes_spec(*tip_block_hash, utxos_in@[utxo_limit as int].height,
-//@|             outpoint_new_spec(txid_of(utxos_in@[utxo_limit as int].outpoint.txid), utxos_in@[utxo_limit as int].outpoint.vout)),
-//@| {
-//@|     let mut utxos = utxos_in;
-//@ tail
-//@|     (utxos, next_page)
-//@| }
-//@end
+
+
 
 // ---- C06: get_utxos_internal (get_utxos.rs:122): which chain and which offset a page request is answered from ------------
 // [trusted:stand-in] the response / statistics types (opaque), Page::from_bytes as a function of the bytes (its totality and its
@@ -785,7 +601,7 @@ impl UtxoSet {
     #[verifier::external_body]
     fn get_balance(&self, address: &Address) -> (r: u64) ensures r == stable_balance_spec(self, *address) { unimplemented!() }
 }
-//@slice file=canister/src/api/get_balance.rs item="fn get_balance_private" to_before="// Observe metrics" props=C05
+//@slice file=canister/src/api/get_balance.rs item="fn get_balance_private" to_before="// Observe metrics" props=C05,C02
 //@ r7 ro="vp_state()" type=State
 //@ rewrite R3 "GetBalanceError::" => "GetBalanceErrorFull::"
 //@ rewrite R3 "Stats \{" => "BalanceStats {"
